@@ -635,12 +635,16 @@ class Contract(object):
         pre_state = {k: copy.deepcopy(dict(o.__dict__)) for k, o in pre_objs.items()}
         args, kwargs = self.call_args(env)
         f = self.func
+        ext = _native_externals()
+        ext.__enter__()
         try:
             result = f(*args, **kwargs)
             exc = None
         except Exception as e:
             exc = e
             result = None
+        finally:
+            ext.__exit__()
         if exc is None:
             env = dict(env, result=result)
             if self.result_new is not None and type(result) is not resolve(self.result_new):
@@ -810,7 +814,8 @@ class TraceContract(object):
     """calls to the target append (channel, args) to ctx.trace and return a
     fixed value; the callee's body is outside the unit (listed as external)"""
     trusted = True
-    def __init__(self, target, channel, returns=None, name=None, resolver=None, record=None):
+    def __init__(self, target, channel, returns=None, name=None, resolver=None, record=None, method=True):
+        self.method = method        # the target is a method: the receiver is not recorded
         self.target_spec = target
         self.name = name or (target if isinstance(target, str) else str(target))
         self.channel = channel
@@ -831,9 +836,44 @@ class TraceContract(object):
         return f.__module__.split('.')[-1] + '.' + f.__qualname__
     def apply(self, I, func, args, kwargs):
         I.cfg.used_contracts.add(self.name)
-        I.ctx.trace.setdefault(self.channel, []).append((tuple(args), dict(kwargs)))
-        I.ctx.trace.setdefault('*', []).append((self.channel, tuple(args), dict(kwargs)))
+        rec = tuple(args[1:]) if self.method else tuple(args)
+        I.ctx.trace.setdefault(self.channel, []).append((rec, dict(kwargs)))
+        I.ctx.trace.setdefault('*', []).append((self.channel, rec, dict(kwargs)))
         return self.returns
+
+_NATIVE_TRACE = {}
+
+def trace(channel):
+    """in lemma bodies / contract expressions: the list of argument tuples of
+    the calls made so far on a ghost-traced external channel"""
+    return [a for (a, k) in _NATIVE_TRACE.get(channel, [])]
+
+def _m_trace(I, channel):
+    return [a for (a, k) in I.ctx.trace.get(channel, [])]
+
+class _native_externals(object):
+    """native replay: every ghost-traced external is replaced by a recorder"""
+    def __enter__(self):
+        self.saved = []
+        _NATIVE_TRACE.clear()
+        for c in REGISTRY.values():
+            if isinstance(c, TraceContract) and isinstance(c.target_spec, str):
+                modname, _, qual = c.target_spec.partition(':')
+                owner_spec, _, attr = qual.rpartition('.')
+                owner = resolve(modname + (':' + owner_spec if owner_spec else ''))
+                orig = owner.__dict__.get(attr) if isinstance(owner, type) else getattr(owner, attr)
+                def mk(c=c):
+                    def rec(*a, **k):
+                        _NATIVE_TRACE.setdefault(c.channel, []).append((tuple(a[1:]) if c.method else tuple(a), dict(k)))
+                        return c.returns
+                    return rec
+                setattr(owner, attr, mk())
+                self.saved.append((owner, attr, orig))
+        return self
+    def __exit__(self, *exc):
+        for owner, attr, orig in self.saved:
+            setattr(owner, attr, orig)
+        return False
 
 def external(target, channel, **kw):
     c = TraceContract(target, channel, **kw)
@@ -893,7 +933,8 @@ class Lemma(object):
         _NATIVE_STATE['failures'] = failures
         _NATIVE_STATE['skip'] = False
         try:
-            self.fn(*args)
+            with _native_externals():
+                self.fn(*args)
             outcome = 'return'
         except _RequiresFalse:
             return 'precondition-false', [], {'inputs': b.values}
@@ -982,6 +1023,7 @@ def make_config(repo_root, verif_root, unit=None, extra_models=None):
         cfg.contract_funcs[id(f)] = f
     cfg.models[id(requires)] = _m_requires
     cfg.models[id(check)] = _m_check
+    cfg.models[id(trace)] = _m_trace
     if extra_models:
         cfg.models.update(extra_models)
     return cfg
